@@ -341,6 +341,8 @@ def check_l1(pid, replay=None):
     rnd = []
     for fam, share in fams:
         rnd += getattr(gen_l1, fam)(seed, max(20, int(nrand * share)))
+    if pid == "C11":
+        rnd += gen_l1.seq16(seed)     # one URR reporting more than 2^16 times
     log("executing %d model paths and %d random histories on the real PfcpServer" % (len(scripts), len(rnd)))
 
     v1, s1 = execute_and_judge(binary, scripts, kbase(pid), pid + "-mc")
@@ -599,8 +601,14 @@ def fd_render(rule, rng=None):
         ip = ".".join(str(x) for x in a["ip"])
         return ip if a["k"] == "host" else "%s/%d" % (ip, a["n"])
 
+    def num(v):
+        # decimal numbers, now and then written with leading zeros (still decimal: "0080" is port 80)
+        if rng is not None and rng.random() < 0.08:
+            return rng.choice(["0%d", "00%d", "%05d"]) % v
+        return str(v)
+
     def ports(ps):
-        return ",".join(str(p["lo"]) if p["single"] else "%d-%d" % (p["lo"], p["hi"]) for p in ps)
+        return ",".join(num(p["lo"]) if p["single"] else "%s-%s" % (num(p["lo"]), num(p["hi"])) for p in ps)
     toks = ["permit", rule["dir"], "ip" if rule["proto"] == -1 else str(rule["proto"]), "from", addr(rule["src"])]
     if rule["sports"]:
         toks.append(ports(rule["sports"]))
@@ -1055,6 +1063,11 @@ def check_rules_full(pid, replay=None):
     n = report_violations(pid, viols, st["crashes"], "L1 hand-over")
     if st["crashes"] and not n:
         raise Infra("L1 executor died: %s" % st["crashes"][0]["tail"][-1500:])
+    if pid == "C03":
+        # "a URR whose triggers include periodic reporting is in addition registered for periodic querying": also when hundreds
+        # of them are created while the periodic server is busy
+        nrt, _ = realtime_part(pid, "regflood", 1, kbase(pid), accept=("C15:URRs with the periodic trigger were created",))
+        n += nrt
     p = os.path.join(vlib.VERIF, "evidence", pid + ".json")
     with open(p) as fh:
         ev = json.load(fh)
@@ -1284,6 +1297,8 @@ def check_c15_full(pid, replay=None):
         return check_l2(pid, replay)
     rc = check_l2(pid, None)
     n, notes = realtime_part(pid, "tickfail", 2 if vlib.tier() == "thorough" else 1, kbase(pid))
+    n2, notes2 = realtime_part(pid, "regflood", 1, kbase(pid))
+    n, notes = n + n2, notes + notes2
     p = os.path.join(vlib.VERIF, "evidence", pid + ".json")
     with open(p) as fh:
         ev = json.load(fh)
@@ -1443,6 +1458,8 @@ def check_c06_full(pid, replay=None):
         return _check_l1_c06(pid, replay)
     rc = _check_l1_c06(pid, None)
     n, notes = realtime_part(pid, "retain", 3 if vlib.tier() == "thorough" else 1, kbase(pid))
+    n2, notes2 = realtime_part(pid, "rxflood", 2 if vlib.tier() == "thorough" else 1, kbase(pid))
+    n, notes = n + n2, notes + notes2
     p = os.path.join(vlib.VERIF, "evidence", pid + ".json")
     with open(p) as fh:
         ev = json.load(fh)
@@ -1454,6 +1471,31 @@ def check_c06_full(pid, replay=None):
 
 
 REGISTRY["C06"] = check_c06_full
+
+_check_l1_c09 = REGISTRY["C09"]
+
+
+def check_c09_full(pid, replay=None):
+    """injected expiries at L1 + one scenario with the REAL retransmission timers while the loop is busy"""
+    if replay:
+        with open(replay) as fh:
+            doc = json.load(fh)
+        if doc.get("kind") == "realtime":
+            return replay_realtime(pid, doc)
+        return _check_l1_c09(pid, replay)
+    rc = _check_l1_c09(pid, None)
+    n, notes = realtime_part(pid, "txstall", 2 if vlib.tier() == "thorough" else 1, kbase(pid))
+    p = os.path.join(vlib.VERIF, "evidence", pid + ".json")
+    with open(p) as fh:
+        ev = json.load(fh)
+    ev["coverage"]["realtime_scenarios"] = notes
+    ev["violations"] = ev.get("violations", 0) + n
+    with open(p, "w") as fh:
+        json.dump(ev, fh, indent=1)
+    return 1 if (rc or n) else 0
+
+
+REGISTRY["C09"] = check_c09_full
 
 _check_c19_pure = REGISTRY["C19"]
 
@@ -1761,6 +1803,8 @@ def check_c07(pid, replay=None):
             path = vlib.save_replay(pid, "%s-%s-%d" % (v["note"], v["tr"], v["i"]), doc)
             log("  rejected (%s): %s" % (v["note"], v["tags"][0][:300]))
             print("VIOLATION property=%s replay=%s" % (pid, path))
+    nrt, rtnotes = realtime_part(pid, "retain", 1, kbase(pid), accept=("C06:bookkeeping of an unanswered request",))
+    n += nrt
     nmsg = sum(1 for s in scripts for e in s["events"] if e["t"] == "mut")
     cov = {"states": mc["distinct"], "transitions": mc["generated"], "traces_validated_against_impl": t1 + t2,
            "samples": [brief(scripts[0])[-8:]], "prefixes": len(scripts), "mutated_datagrams_l1": nmsg,
@@ -2005,6 +2049,8 @@ def check_c17(pid, replay=None):
         sd = vlib.seed() * 1000 + i
         scen.append(dict(STRESS_BASE, id="once-%d" % sd, kind="once", smfs=rng.randint(2, 4), prods=rng.randint(2, 8), runms=300, seed=sd))
         scen.append(dict(STRESS_BASE, id="stop-%d" % sd, kind="stop", smfs=rng.randint(2, 4), prods=rng.randint(2, 8), runms=rng.randint(5, 250), stop=True, seed=sd))
+    # the periodic server closed while very short periods are ticking (a panic kills the child: "the process died")
+    scen.append(dict(STRESS_BASE, id="perioclose-0", kind="perioclose", n=600 if thorough else 300, stop=True, seed=0))
     # Stop at once / a few hundred microseconds after Start: nothing is in flight except the start-up itself
     for j, us in enumerate([0, 0, 50, 300, 2000][: 5 if thorough else 3]):
         scen.append(dict(STRESS_BASE, id="stopearly-%d" % j, kind="stopearly", runms=us, stop=True, seed=j))
@@ -2072,6 +2118,27 @@ def check_c18_full(pid, replay=None):
         return check_c18(pid, replay)
     rc = check_c18(pid, None)
     n, notes = realtime_part(pid, "tickfail", 1, kbase(pid), accept=("C15:",))
+    # ordinary traffic with millisecond transaction timers and an SMF that answers report requests around the time-out: the
+    # loop must keep answering (a response taken from the queue just after its timer fired must not block it)
+    binary = vlib.build_test_binary("internal/pfcp")
+    known = vlib.load_known()
+    for j in range(4 if vlib.tier() == "thorough" else 2):
+        sc = dict(STRESS_BASE, id="%s-once-%d" % (pid, j), kind="once", smfs=2, prods=3, runms=400, seed=vlib.seed() * 100 + j)
+        rc1, txt, o = run_stress(binary, sc, kbase(pid))
+        if o is None and "INFRA:" in txt:
+            raise Infra("stress scenario %s: %s" % (sc["id"], txt[-800:]))
+        if o is not None and o["answered"]:
+            continue
+        sig = (o or {}).get("sig", "") or "the process died: " + txt[-300:].replace("\n", " | ")
+        v = {"tags": ["C18:the event loop made no progress: " + sig], "line": {"e": sc}}
+        kf = match_known(known, pid, v)
+        if kf:
+            print("KNOWN-FINDING: property=%s %s" % (pid, kf["what"]))
+            continue
+        n += 1
+        path = vlib.save_replay(pid, sc["id"], {"property": pid, "kind": "stress", "scenario": sc, "result": o})
+        log("  rejected: scenario %s: the loop stopped answering (%s)" % (sc["id"], sig[:300]))
+        print("VIOLATION property=%s replay=%s" % (pid, path))
     p = os.path.join(vlib.VERIF, "evidence", pid + ".json")
     with open(p) as fh:
         ev = json.load(fh)
